@@ -380,12 +380,13 @@ func (ck *checker) run(root px.Context, rng *lib.Rng) {
 	}
 	// 1c. bounded-exhaustive family of the attribute route: parameterized types over user types, every
 	// placement of default-valued attributes; the options do not reach into the trimming, so a spread of
-	// 12 configurations (all of them for every fourth value) is run
+	// 12 configurations (all of them for every eighth value) is run; one rich-data run per value goes to the
+	// model (in the quick tier: of every second value in the scenario with inline type definitions)
 	na := 0
 	for _, s := range attributeFamily() {
 		na++
 		sel := cfgs
-		if !thorough && na%4 != 0 {
+		if !thorough && na%8 != 0 {
 			sel = nil
 			for i, c := range cfgs {
 				if (i+na)%16 == 0 {
@@ -394,7 +395,11 @@ func (ck *checker) run(root px.Context, rng *lib.Rng) {
 			}
 		}
 		for _, reg := range scenarios(s) {
-			ck.checkValue(root, s, reg, sel, pickRich(rng.Fork(), sel), "exhaustive", false)
+			emit := pickRich(rng.Fork(), sel)
+			if !thorough && !reg && na%2 == 0 {
+				emit = func(int) bool { return false }
+			}
+			ck.checkValue(root, s, reg, sel, emit, "exhaustive", false)
 		}
 	}
 	ck.res.Extra["attribute_family_values"] = na
@@ -431,7 +436,7 @@ func (ck *checker) run(root px.Context, rng *lib.Rng) {
 	// 3. seeded random; quick tier: a random third of the matrix per value
 	// the Coq cases of the random family go to 2 (quick) or 4 (thorough) files evaluated in parallel by the
 	// driver (at most ~1 500 cases per file)
-	nRandom, perValue := 260, 3
+	nRandom, perValue := 260, 2
 	randomFiles := []string{"random_a", "random_b"}
 	if thorough {
 		nRandom, perValue = 4000, 1
